@@ -434,13 +434,23 @@ def gen_prog(rng, nops):
         r = rng.below(100)
         if r < 12:
             s = rng.below(6); opened.add(s)
-            prog.append(f"open {s} {rng.choice(FILES + ODD + [P()])} {rng.choice(['rwc', 'rwc', 'rw', 'r', 'wc', 'wct', 'rwca', 'rwcx', 'rd', 'w'])} {rng.choice(['644', '600', '755'])}")
+            if rng.below(5) == 0:     # unnamed temporary file in a directory (or something that is not one)
+                prog.append(f"open {s} {rng.choice(['d0', '.', 'd1', 'd0/d2', 'f2', 'nope'])} {rng.choice(['rwT', 'wT', 'rwTx', 'rT'])} "
+                            f"{rng.choice(['644', '600', '755', '0', '777', '640'])}")
+                if rng.below(2):
+                    prog.append(f"linkfd {s} {rng.choice(['t0', 'd0/t1', 'f2'])}")
+            else:
+                prog.append(f"open {s} {rng.choice(FILES + ODD + [P()])} "
+                            f"{rng.choice(['rwc', 'rwc', 'rw', 'r', 'wc', 'wct', 'rwca', 'rwcx', 'wcx', 'rd', 'w', 'rn', 'rdn', 'rp', 'rpn', 'wa', 'rwt', 'rk', 'rwcn'])} "
+                            f"{rng.choice(['644', '600', '755', '0', '777', '4755', '1777', '640'])}")
         elif r < 24:
             prog.append(f"write {S()} {off()} {rng.below(50)} {lens()}")
         elif r < 34:
             prog.append(f"read {S()} {off()} {lens()}")
-        elif r < 37:
+        elif r < 36:
             s = S(); opened.discard(s); prog.append(f"close {s}")
+        elif r < 37:
+            prog.append(f"umask {rng.choice(['022', '077', '027', '0', '002', '777'])}")
         elif r < 41:
             prog.append(f"ftruncate {S()} {rng.choice([0, 0, 1, 4, 10, 5000])}")
         elif r < 43:
